@@ -384,6 +384,14 @@ def run(tier):
             if admitted(fs):
                 scopes.append(fs)
                 tri += 1
+        # an overload set that is numbered beyond one digit (suffixes _0 .. _11), as free functions, methods and in a namespace
+        plists = [(), ("int",), ("double",), ("long",), ("float",), ("int", "int"), ("int", "double"), ("double", "int"),
+                  ("double", "double"), ("int", "long"), ("long", "int"), ("int", "double", "long")]
+        for nm in ("alpha", "getName"):
+            many = [F(nm, pl) for pl in plists]
+            if not admitted(many):
+                raise MachineryError("the twelve-overload scope is not admitted by MC_Naming!Admitted")
+            scopes += [many, many, many]     # (placed in the lib / class / ns rotation below)
         jobs = []
         with common.scratch("c08-") as base:
             for i, fs in enumerate(scopes):
